@@ -32,6 +32,9 @@ type Op struct {
 }
 
 type Case struct {
+	// Off, Len: superblock size of offsets / size of lengths of the file the heap is written to and loaded from (0 = 8)
+	Off       int    `json:"off,omitempty"`
+	Len       int    `json:"len,omitempty"`
 	BlockSize uint64 `json:"block_size"`
 	Ops       []Op   `json:"ops"`
 }
@@ -65,6 +68,9 @@ const maxManaged = 65536
 
 func genCase(t *rapid.T) Case {
 	c := Case{BlockSize: rapid.SampledFrom([]uint64{512, 512, 512, 4096, 4096, 4096, 65536, 65536, 131072, 524288}).Draw(t, "block")}
+	if sz := rapid.SampledFrom([][2]int{{8, 8}, {8, 8}, {8, 8}, {4, 4}, {8, 4}, {4, 8}}).Draw(t, "sizes"); sz != [2]int{8, 8} {
+		c.Off, c.Len = sz[0], sz[1]
+	}
 	usable := int(c.BlockSize) - overheadOf(c.BlockSize)
 	maxOps := vt.N(40, 100)
 	if c.BlockSize > 65536 {
@@ -170,7 +176,14 @@ func classify(c Case) (bool, []string) {
 }
 
 func run(c Case) vt.Verdict {
-	sb := &core.Superblock{Version: 2, OffsetSize: 8, LengthSize: 8, Endianness: binary.LittleEndian}
+	offS, lenS := 8, 8
+	if c.Off != 0 {
+		offS, lenS = c.Off, c.Len
+	}
+	if (offS != 4 && offS != 8) || (lenS != 4 && lenS != 8) {
+		return vt.Skipped("sizes outside the generated domain")
+	}
+	sb := &core.Superblock{Version: 2, OffsetSize: uint8(offS), LengthSize: uint8(lenS), Endianness: binary.LittleEndian}
 	fh := structures.NewWritableFractalHeap(c.BlockSize)
 	file := memf.New(128)
 	file.Data = make([]byte, 128)
@@ -210,6 +223,10 @@ func run(c Case) vt.Verdict {
 			if !bytes.Equal(got, o.data) {
 				v := fail(step, op, "GetObject(id %x) returned %d bytes differing from the %d stored (first diff at %d)", o.id, len(got), len(o.data), firstDiff(got, o.data))
 				return &v
+			}
+			// what the caller does with the returned bytes is the caller's business: the heap keeps returning what was stored
+			for k := range got {
+				got[k] ^= 0xFF
 			}
 			if seen[string(o.id)] {
 				v := fail(step, op, "two live objects share id %x", o.id)
@@ -275,7 +292,7 @@ func run(c Case) vt.Verdict {
 			hdrAddr = a
 		}
 		// (1) the library's read-side heap returns the same bytes from the image
-		rh, err := structures.OpenFractalHeap(file, hdrAddr, 8, 8, binary.LittleEndian)
+		rh, err := structures.OpenFractalHeap(file, hdrAddr, uint8(lenS), uint8(offS), binary.LittleEndian)
 		if err != nil {
 			v := fail(step, op, "OpenFractalHeap on the written image: %v", err)
 			return &v
@@ -298,14 +315,14 @@ func run(c Case) vt.Verdict {
 			return &v
 		}
 		blk := file.Data[rootAddr : rootAddr+c.BlockSize]
-		if string(blk[:4]) != "FHDB" || binary.LittleEndian.Uint64(blk[5:13]) != hdrAddr {
-			v := fail(step, op, "direct block prefix wrong: sig %q header addr %d (want %d)", blk[:4], binary.LittleEndian.Uint64(blk[5:13]), hdrAddr)
+		if string(blk[:4]) != "FHDB" || leUint(blk[5:5+offS]) != hdrAddr {
+			v := fail(step, op, "direct block prefix wrong: sig %q header addr %d (want %d)", blk[:4], leUint(blk[5:5+offS]), hdrAddr)
 			return &v
 		}
 		if !indirect {
 			for _, o := range live {
 				off := int(leUint(o.id[1 : 1+osz]))
-				s := 13 + osz + off
+				s := 5 + offS + osz + off
 				if s+len(o.data) > len(blk)-4 || !bytes.Equal(blk[s:s+len(o.data)], o.data) {
 					v := fail(step, op, "image bytes of object id %x (offset %d, %d bytes) differ from the stored bytes or run into the checksum", o.id, off, len(o.data))
 					return &v
